@@ -5,6 +5,8 @@
 -/
 import CC.Gen.Kernels
 import CC.Blake.Model
+import CC.Lemmas.SrcGlue
+import CC.Lemmas.SrcGlueBlake
 namespace CC.Src
 open CC.Simd CC.Blake
 
@@ -155,5 +157,222 @@ theorem src_blake_increase_count_384 (p : Profile) (t : BitVec 64 × BitVec 64) 
 theorem src_blake_increase_count_512 (p : Profile) (t : BitVec 64 × BitVec 64) (count : BitVec 64) :
     increaseCount p t count = Gen.Kernels.blake_increase_count_512 p t.1 t.2 count := by
   cases p <;> simp [increaseCount, Gen.Kernels.blake_increase_count_512] <;> (repeat' split) <;> simp_all <;> omega
+
+/-! ## phase 3: the glue of lib.rs (`define_hasher!`), the four instantiations (tools/inventory_kernels_glue.py)
+
+  `Default::default`, `Update::update`, `FixedOutputDirty::finalize_into_dirty`, `Reset::reset`, regenerated from the
+  source on every run.  A `Hasher w V` is encoded as the flat tuple of the Rust struct's fields (`blakeEnc`:
+  `compressor.h[0]`, `compressor.h[1]`, `buffer`, `t.0`, `t.1`; `blakeEncOut` appends `out`).  `input_block` is the
+  named primitive `CC.Buffer.inputBlock`; `increase_count` / `put_block` are the phase-2 definitions (tied above);
+  `$compressor::finalize` is a parameter of the generated definition, instantiated with the model's `finalizeC`.
+  Panic messages are not compared (`noMsg`).  The generic part (one proof for all four instantiations: `update_glue`,
+  `finalize_glue` over the generated shapes `updGen`, `finGen`) is in lean/CC/Lemmas/SrcGlueBlake.lean; here each
+  generated definition is shown to BE that shape at the macro arguments (by unfolding) and the kit's arguments are
+  discharged.  Only hypothesis: the block-buffer invariant `buffer.pos ≤ $buf` for `finalize_into_dirty` (the
+  translator maps `$buf - buffer.position()` to truncated subtraction under that invariant; the model panics beyond). -/
+
+open Gen.Kernels in
+theorem put32_pair (M : Mach) (c : Compressor (BitVec 128)) (blk : List (BitVec 8)) (t : BitVec 32 × BitVec 32) :
+    putBlock (vops32 M) cp32 c blk t
+      = ⟨(blake_put_block_u32x4 M c.h0 c.h1 blk t.1 t.2).1, (blake_put_block_u32x4 M c.h0 c.h1 blk t.1 t.2).2⟩ :=
+  src_blake_put_block_u32x4 M c blk t
+
+open Gen.Kernels in
+theorem put64_pair (M : Mach) (c : Compressor (BitVec 256)) (blk : List (BitVec 8)) (t : BitVec 64 × BitVec 64) :
+    putBlock (vops64 M) cp64 c blk t
+      = ⟨(blake_put_block_u64x4 M c.h0 c.h1 blk t.1 t.2).1, (blake_put_block_u64x4 M c.h0 c.h1 blk t.1 t.2).2⟩ :=
+  src_blake_put_block_u64x4 M c blk t
+
+/-! ### Blake224 -/
+
+theorem src_blake_default_224 (M : Mach) :
+    blakeEnc (Hasher.default (kit224 M)) = Gen.Kernels.blake_default_224 := rfl
+
+open Gen.Kernels in
+/-- the generated `update` is the common shape at `$buf = 64`, `size_of::<$word>() * 16 = 64` -/
+theorem blake_update_224_shape (M : Mach) (p : Profile) (h0 h1 : BitVec 128) (b : CC.Buffer.BB) (t0 t1 : BitVec 32)
+    (data : List (BitVec 8)) :
+    blake_update_224 M p h0 h1 b t0 t1 data
+      = updGen 64 (updClosureGen (blake_increase_count_224 p) (blake_put_block_u32x4 M) 64#32) h0 h1 b t0 t1 data := rfl
+
+open Gen.Kernels in
+theorem src_blake_update_224 (M : Mach) (p : Profile) (h : Hasher 32 (BitVec 128)) (data : List (BitVec 8)) :
+    noMsg (blake_update_224 M p h.compressor.h0 h.compressor.h1 h.buffer h.t.1 h.t.2 data)
+      = noMsg (update (kit224 M) p h data >>= fun h' => .ok (blakeEnc h')) :=
+  update_glue (kit224 M) p (blake_increase_count_224 p) (blake_put_block_u32x4 M)
+    (src_blake_increase_count_224 p) (put32_pair M) h data
+
+open Gen.Kernels in
+/-- the generated `finalize_into_dirty` is the common shape at `$buf = 64`, `footerlen = 9`, `$Bytes = 28`,
+    `isfull = 0#8` -/
+theorem blake_finalize_into_dirty_224_shape (fin : BitVec 128 → BitVec 128 → List (BitVec 8)) (M : Mach) (p : Profile)
+    (h0 h1 : BitVec 128) (b : CC.Buffer.BB) (t0 t1 : BitVec 32) (out : List (BitVec 8)) :
+    blake_finalize_into_dirty_224 fin M p h0 h1 b t0 t1 out
+      = finGen 64 9 55 4 28 0#8 (blake_increase_count_224 p) (blake_put_block_u32x4 M) fin p h0 h1 b t0 t1 := by
+  unfold blake_finalize_into_dirty_224 finGen finGenTail blake_finalize_into_dirty_224_closure1
+    blake_finalize_into_dirty_224_closure2 blake_finalize_into_dirty_224_closure3
+    blake_finalize_into_dirty_224_closure4 unreachableGen
+  rfl
+
+open Gen.Kernels in
+theorem src_blake_finalize_into_dirty_224 (M : Mach) (p : Profile) (h : Hasher 32 (BitVec 128))
+    (hpos : h.buffer.pos ≤ 64) (out : List (BitVec 8)) :
+    noMsg (blake_finalize_into_dirty_224 (fun a b => finalizeC (vops32 M) ⟨a, b⟩) M p
+        h.compressor.h0 h.compressor.h1 h.buffer h.t.1 h.t.2 out)
+      = noMsg (finalizeIntoDirty (kit224 M) p h >>= fun r => .ok (blakeEncOut r)) := by
+  rw [blake_finalize_into_dirty_224_shape]
+  exact finalize_glue (kit224 M) p 0#8 (blake_increase_count_224 p) (blake_put_block_u32x4 M)
+    (src_blake_increase_count_224 p) (put32_pair M) (by simp [kit224]) (by simp [kit224]) (by simp [kit224]) h hpos
+
+theorem src_blake_reset_224 (M : Mach) (h : Hasher 32 (BitVec 128)) :
+    blakeEnc (reset (kit224 M) h)
+      = Gen.Kernels.blake_reset_224 h.compressor.h0 h.compressor.h1 h.buffer h.t.1 h.t.2 := rfl
+
+/-! ### Blake256 -/
+
+theorem src_blake_default_256 (M : Mach) :
+    blakeEnc (Hasher.default (kit256 M)) = Gen.Kernels.blake_default_256 := rfl
+
+open Gen.Kernels in
+/-- the generated `update` is the common shape at `$buf = 64`, `size_of::<$word>() * 16 = 64` -/
+theorem blake_update_256_shape (M : Mach) (p : Profile) (h0 h1 : BitVec 128) (b : CC.Buffer.BB) (t0 t1 : BitVec 32)
+    (data : List (BitVec 8)) :
+    blake_update_256 M p h0 h1 b t0 t1 data
+      = updGen 64 (updClosureGen (blake_increase_count_256 p) (blake_put_block_u32x4 M) 64#32) h0 h1 b t0 t1 data := rfl
+
+open Gen.Kernels in
+theorem src_blake_update_256 (M : Mach) (p : Profile) (h : Hasher 32 (BitVec 128)) (data : List (BitVec 8)) :
+    noMsg (blake_update_256 M p h.compressor.h0 h.compressor.h1 h.buffer h.t.1 h.t.2 data)
+      = noMsg (update (kit256 M) p h data >>= fun h' => .ok (blakeEnc h')) :=
+  update_glue (kit256 M) p (blake_increase_count_256 p) (blake_put_block_u32x4 M)
+    (src_blake_increase_count_256 p) (put32_pair M) h data
+
+open Gen.Kernels in
+/-- the generated `finalize_into_dirty` is the common shape at `$buf = 64`, `footerlen = 9`, `$Bytes = 32`,
+    `isfull = 1#8` -/
+theorem blake_finalize_into_dirty_256_shape (fin : BitVec 128 → BitVec 128 → List (BitVec 8)) (M : Mach) (p : Profile)
+    (h0 h1 : BitVec 128) (b : CC.Buffer.BB) (t0 t1 : BitVec 32) (out : List (BitVec 8)) :
+    blake_finalize_into_dirty_256 fin M p h0 h1 b t0 t1 out
+      = finGen 64 9 55 4 32 1#8 (blake_increase_count_256 p) (blake_put_block_u32x4 M) fin p h0 h1 b t0 t1 := by
+  unfold blake_finalize_into_dirty_256 finGen finGenTail blake_finalize_into_dirty_256_closure1
+    blake_finalize_into_dirty_256_closure2 blake_finalize_into_dirty_256_closure3
+    blake_finalize_into_dirty_256_closure4 unreachableGen
+  rfl
+
+open Gen.Kernels in
+theorem src_blake_finalize_into_dirty_256 (M : Mach) (p : Profile) (h : Hasher 32 (BitVec 128))
+    (hpos : h.buffer.pos ≤ 64) (out : List (BitVec 8)) :
+    noMsg (blake_finalize_into_dirty_256 (fun a b => finalizeC (vops32 M) ⟨a, b⟩) M p
+        h.compressor.h0 h.compressor.h1 h.buffer h.t.1 h.t.2 out)
+      = noMsg (finalizeIntoDirty (kit256 M) p h >>= fun r => .ok (blakeEncOut r)) := by
+  rw [blake_finalize_into_dirty_256_shape]
+  exact finalize_glue (kit256 M) p 1#8 (blake_increase_count_256 p) (blake_put_block_u32x4 M)
+    (src_blake_increase_count_256 p) (put32_pair M) (by simp [kit256]) (by simp [kit256]) (by simp [kit256]) h hpos
+
+theorem src_blake_reset_256 (M : Mach) (h : Hasher 32 (BitVec 128)) :
+    blakeEnc (reset (kit256 M) h)
+      = Gen.Kernels.blake_reset_256 h.compressor.h0 h.compressor.h1 h.buffer h.t.1 h.t.2 := rfl
+
+/-! ### Blake384 -/
+
+theorem src_blake_default_384 (M : Mach) :
+    blakeEnc (Hasher.default (kit384 M)) = Gen.Kernels.blake_default_384 := rfl
+
+open Gen.Kernels in
+/-- the generated `update` is the common shape at `$buf = 128`, `size_of::<$word>() * 16 = 128` -/
+theorem blake_update_384_shape (M : Mach) (p : Profile) (h0 h1 : BitVec 256) (b : CC.Buffer.BB) (t0 t1 : BitVec 64)
+    (data : List (BitVec 8)) :
+    blake_update_384 M p h0 h1 b t0 t1 data
+      = updGen 128 (updClosureGen (blake_increase_count_384 p) (blake_put_block_u64x4 M) 128#64) h0 h1 b t0 t1 data := rfl
+
+open Gen.Kernels in
+theorem src_blake_update_384 (M : Mach) (p : Profile) (h : Hasher 64 (BitVec 256)) (data : List (BitVec 8)) :
+    noMsg (blake_update_384 M p h.compressor.h0 h.compressor.h1 h.buffer h.t.1 h.t.2 data)
+      = noMsg (update (kit384 M) p h data >>= fun h' => .ok (blakeEnc h')) :=
+  update_glue (kit384 M) p (blake_increase_count_384 p) (blake_put_block_u64x4 M)
+    (src_blake_increase_count_384 p) (put64_pair M) h data
+
+open Gen.Kernels in
+/-- the generated `finalize_into_dirty` is the common shape at `$buf = 128`, `footerlen = 17`, `$Bytes = 48`,
+    `isfull = 0#8` -/
+theorem blake_finalize_into_dirty_384_shape (fin : BitVec 256 → BitVec 256 → List (BitVec 8)) (M : Mach) (p : Profile)
+    (h0 h1 : BitVec 256) (b : CC.Buffer.BB) (t0 t1 : BitVec 64) (out : List (BitVec 8)) :
+    blake_finalize_into_dirty_384 fin M p h0 h1 b t0 t1 out
+      = finGen 128 17 111 8 48 0#8 (blake_increase_count_384 p) (blake_put_block_u64x4 M) fin p h0 h1 b t0 t1 := by
+  unfold blake_finalize_into_dirty_384 finGen finGenTail blake_finalize_into_dirty_384_closure1
+    blake_finalize_into_dirty_384_closure2 blake_finalize_into_dirty_384_closure3
+    blake_finalize_into_dirty_384_closure4 unreachableGen
+  rfl
+
+open Gen.Kernels in
+theorem src_blake_finalize_into_dirty_384 (M : Mach) (p : Profile) (h : Hasher 64 (BitVec 256))
+    (hpos : h.buffer.pos ≤ 128) (out : List (BitVec 8)) :
+    noMsg (blake_finalize_into_dirty_384 (fun a b => finalizeC (vops64 M) ⟨a, b⟩) M p
+        h.compressor.h0 h.compressor.h1 h.buffer h.t.1 h.t.2 out)
+      = noMsg (finalizeIntoDirty (kit384 M) p h >>= fun r => .ok (blakeEncOut r)) := by
+  rw [blake_finalize_into_dirty_384_shape]
+  exact finalize_glue (kit384 M) p 0#8 (blake_increase_count_384 p) (blake_put_block_u64x4 M)
+    (src_blake_increase_count_384 p) (put64_pair M) (by simp [kit384]) (by simp [kit384]) (by simp [kit384]) h hpos
+
+theorem src_blake_reset_384 (M : Mach) (h : Hasher 64 (BitVec 256)) :
+    blakeEnc (reset (kit384 M) h)
+      = Gen.Kernels.blake_reset_384 h.compressor.h0 h.compressor.h1 h.buffer h.t.1 h.t.2 := rfl
+
+/-! ### Blake512 -/
+
+theorem src_blake_default_512 (M : Mach) :
+    blakeEnc (Hasher.default (kit512 M)) = Gen.Kernels.blake_default_512 := rfl
+
+open Gen.Kernels in
+/-- the generated `update` is the common shape at `$buf = 128`, `size_of::<$word>() * 16 = 128` -/
+theorem blake_update_512_shape (M : Mach) (p : Profile) (h0 h1 : BitVec 256) (b : CC.Buffer.BB) (t0 t1 : BitVec 64)
+    (data : List (BitVec 8)) :
+    blake_update_512 M p h0 h1 b t0 t1 data
+      = updGen 128 (updClosureGen (blake_increase_count_512 p) (blake_put_block_u64x4 M) 128#64) h0 h1 b t0 t1 data := rfl
+
+open Gen.Kernels in
+theorem src_blake_update_512 (M : Mach) (p : Profile) (h : Hasher 64 (BitVec 256)) (data : List (BitVec 8)) :
+    noMsg (blake_update_512 M p h.compressor.h0 h.compressor.h1 h.buffer h.t.1 h.t.2 data)
+      = noMsg (update (kit512 M) p h data >>= fun h' => .ok (blakeEnc h')) :=
+  update_glue (kit512 M) p (blake_increase_count_512 p) (blake_put_block_u64x4 M)
+    (src_blake_increase_count_512 p) (put64_pair M) h data
+
+open Gen.Kernels in
+/-- the generated `finalize_into_dirty` is the common shape at `$buf = 128`, `footerlen = 17`, `$Bytes = 64`,
+    `isfull = 1#8` -/
+theorem blake_finalize_into_dirty_512_shape (fin : BitVec 256 → BitVec 256 → List (BitVec 8)) (M : Mach) (p : Profile)
+    (h0 h1 : BitVec 256) (b : CC.Buffer.BB) (t0 t1 : BitVec 64) (out : List (BitVec 8)) :
+    blake_finalize_into_dirty_512 fin M p h0 h1 b t0 t1 out
+      = finGen 128 17 111 8 64 1#8 (blake_increase_count_512 p) (blake_put_block_u64x4 M) fin p h0 h1 b t0 t1 := by
+  unfold blake_finalize_into_dirty_512 finGen finGenTail blake_finalize_into_dirty_512_closure1
+    blake_finalize_into_dirty_512_closure2 blake_finalize_into_dirty_512_closure3
+    blake_finalize_into_dirty_512_closure4 unreachableGen
+  rfl
+
+open Gen.Kernels in
+theorem src_blake_finalize_into_dirty_512 (M : Mach) (p : Profile) (h : Hasher 64 (BitVec 256))
+    (hpos : h.buffer.pos ≤ 128) (out : List (BitVec 8)) :
+    noMsg (blake_finalize_into_dirty_512 (fun a b => finalizeC (vops64 M) ⟨a, b⟩) M p
+        h.compressor.h0 h.compressor.h1 h.buffer h.t.1 h.t.2 out)
+      = noMsg (finalizeIntoDirty (kit512 M) p h >>= fun r => .ok (blakeEncOut r)) := by
+  rw [blake_finalize_into_dirty_512_shape]
+  exact finalize_glue (kit512 M) p 1#8 (blake_increase_count_512 p) (blake_put_block_u64x4 M)
+    (src_blake_increase_count_512 p) (put64_pair M) (by simp [kit512]) (by simp [kit512]) (by simp [kit512]) h hpos
+
+theorem src_blake_reset_512 (M : Mach) (h : Hasher 64 (BitVec 256)) :
+    blakeEnc (reset (kit512 M) h)
+      = Gen.Kernels.blake_reset_512 h.compressor.h0 h.compressor.h1 h.buffer h.t.1 h.t.2 := rfl
+
+/-- the structs of lib.rs: `$compressor { h }` (model `Compressor`: h0, h1), `$name { compressor, buffer, t }` (model
+    `Hasher`); `Clone` is derived everywhere (field-wise copy), `Default` of the hashers is the hand-written impl
+    translated above -/
+theorem src_blake_structs :
+    Gen.Kernels.blake_structs =
+      [("Compressor256", "struct", ["h"], ["Clone", "Copy", "Default"], []),
+       ("Compressor512", "struct", ["h"], ["Clone", "Copy", "Default"], []),
+       ("Blake224", "struct", ["compressor", "buffer", "t"], ["Clone"], ["Default"]),
+       ("Blake256", "struct", ["compressor", "buffer", "t"], ["Clone"], ["Default"]),
+       ("Blake384", "struct", ["compressor", "buffer", "t"], ["Clone"], ["Default"]),
+       ("Blake512", "struct", ["compressor", "buffer", "t"], ["Clone"], ["Default"])] := rfl
 
 end CC.Src
